@@ -376,10 +376,11 @@ def ndToCSeats : NDist → Option CSeats
     | _, _ => none
   | (Key.tie _, _) :: _ => none
 
-/-- `MultistageDistributor([first stage yielding the direct seats by constituency,
-    AdjustedSeatCount(calculator, ByParty)], depth=2).evaluate(votes, n)` -/
-def multistageDE (direct : CSeats) (calcr : CCalc) (ov' alloc : PropEval) (cv : CVotes) (n : Nat) : Except Err NDist :=
-  let elected := addNDist [] (cseatsToNDist direct)
+/-- `MultistageDistributor([stages yielding direct seats by constituency …,
+    AdjustedSeatCount(calculator, ByParty)], depth=2).evaluate(votes, n)`: one or more fixed-outcome stages first -/
+def multistageDE (directs : List CSeats) (calcr : CCalc) (ov' alloc : PropEval) (cv : CVotes) (n : Nat) :
+    Except Err NDist :=
+  let elected := directs.foldl (fun e d => addNDist e (cseatsToNDist d)) []
   match ndToCSeats elected with
   | none => .error unmodelled
   | some prev =>
